@@ -186,6 +186,13 @@ class Interp:
         req, ens, mod, rai = list(c.requires), list(c.ensures), list(c.modifies), dict(c.raises)
         if c.qname.endswith(".__init__") and not any(m.startswith("self.*") for m in mod):
             mod = ["self.*@" + c.qname.rsplit(".", 1)[0]] + mod
+        for g in c.ghost_after:
+            # a ghost assignment of this function is part of its frame (target evaluated in the pre-state; objects allocated by
+            # the call are always writable)
+            lhs = g.split(":=")[0].strip()
+            m = "ghost " + lhs
+            if m not in mod:
+                mod.append(m)
         if c.implements:
             b = self.reg.contracts[c.implements]
             bc = self.all_clauses(b)
